@@ -242,13 +242,18 @@ def mdPutA (d : MD) (k : Key) (v : Val) (s : AS) : (Bool × MD) × AS :=
           | ((true, t'), s4) =>
             ((true, { d with tree := t', els := d.els ++ [⟨eb, kb, vb, v⟩] }), s4)
 
+/-- the blocks of element `id`: key buffer, value buffer, the element -/
+def blocksOfL (els : List MEl) (id : Id) : List Id :=
+  match els.find? (·.el == id) with | some m => m.blocks | none => []
+
+def MD.blocksOf (d : MD) (id : Id) : List Id := blocksOfL d.els id
+
 /-- `mdict_del_key`: the free callback releases key, value, element; then the node goes -/
 def mdDelA (d : MD) (k : Key) (s : AS) : (Bool × MD) × AS :=
   match lookup d.tree.eroot k with
   | none => ((false, d), s)
   | some e =>
-    let blocks := match d.elOf e.obj with | some m => m.blocks | none => []
-    match cbDeleteA d.tree k (freeAllS blocks s) with
+    match cbDeleteA d.tree k (freeAllS (d.blocksOf e.obj) s) with
     | ((_, t'), s1) => ((true, { d with tree := t', els := d.els.eraseP (·.el == e.obj) }), s1)
 
 /-- `mdict_free` -/
@@ -273,31 +278,39 @@ def urlValueA (r : List UInt8) (s : AS) : Option (Option Id × Val × List UInt8
     | (some (vb, v, r2), s2) => (some (some vb, some v, r2), s2)
   else (some (none, none, r), s)
 
-/-- `mdict_urldecode`, one pair per round.  Result: `(ok, dict')`.  Pairs completed before a
-    failure stay in the dict (as in the code); the failing pair leaves no trace. -/
+/-- one round of the loop of `mdict_urldecode`: decode key (and value), then replace the value
+    of an existing element or link a new one.  `none` = this pair failed (allocation or syntax);
+    then everything obtained in this round was released again. -/
+def mdUrlPairA (d : MD) (src : List UInt8) (s : AS) : Option (MD × List UInt8) × AS :=
+  match urldecStrA src s with                                            -- key
+  | (none, s1) => (none, s1)
+  | (some (kb, k, r), s1) =>
+    match urlValueA r s1 with
+    | (none, s2) => (none, freeS kb s2)                                  -- fail: k released
+    | (some (vb, v, r2), s2) =>
+      let r3 := if r2.head? = some 38 then r2.tail else r2
+      match lookup d.tree.eroot k with
+      | some e =>
+        -- old value released, new installed, decoded key released
+        (some (d.setVal e.obj vb v, r3), freeS kb (freeOptS (d.oldVblk e.obj) s2))
+      | none =>
+        match allocS s2 with                                             -- el
+        | (none, s3) => (none, freeOptS vb (freeS kb s3))
+        | (some eb, s3) =>
+          match cbInsertA d.tree ⟨k, eb⟩ s3 with
+          | ((false, _), s4) => (none, freeS eb (freeOptS vb (freeS kb s4)))
+          | ((true, t'), s4) =>
+            (some ({ d with tree := t', els := d.els ++ [⟨eb, kb, vb, v⟩] }, r3), s4)
+
+/-- `mdict_urldecode`.  Result: `(ok, dict')`.  Pairs completed before a failure stay in the
+    dict (as in the code); the failing pair leaves no trace. -/
 def mdUrldecodeA (fuel : Nat) (d : MD) (src : List UInt8) (s : AS) : (Bool × MD) × AS :=
   match fuel with
   | 0 => ((true, d), s)
   | fuel + 1 =>
     if src.isEmpty then ((true, d), s) else
-    match urldecStrA src s with                                          -- key
+    match mdUrlPairA d src s with
     | (none, s1) => ((false, d), s1)
-    | (some (kb, k, r), s1) =>
-      match urlValueA r s1 with
-      | (none, s2) => ((false, d), freeS kb s2)                          -- fail: k released
-      | (some (vb, v, r2), s2) =>
-        let r3 := if r2.head? = some 38 then r2.tail else r2
-        match lookup d.tree.eroot k with
-        | some e =>
-          -- old value released, new installed, decoded key released
-          mdUrldecodeA fuel (d.setVal e.obj vb v) r3 (freeS kb (freeOptS (d.oldVblk e.obj) s2))
-        | none =>
-          match allocS s2 with                                           -- el
-          | (none, s3) => ((false, d), freeOptS vb (freeS kb s3))
-          | (some eb, s3) =>
-            match cbInsertA d.tree ⟨k, eb⟩ s3 with
-            | ((false, _), s4) => ((false, d), freeS eb (freeOptS vb (freeS kb s4)))
-            | ((true, t'), s4) =>
-              mdUrldecodeA fuel { d with tree := t', els := d.els ++ [⟨eb, kb, vb, v⟩] } r3 s4
+    | (some (d1, rest), s1) => mdUrldecodeA fuel d1 rest s1
 
 end Usual.C10
